@@ -393,3 +393,28 @@ Print Assumptions C07_der_encoding_ber_backward_partial.
 Example C07_ber_backward_any_depth_inhabited : ltac:(let T := type of Asn1V.Ber.BerExtendsBackEx.ex_backward_any_depth in exact T).
 Proof. exact Asn1V.Ber.BerExtendsBackEx.ex_backward_any_depth. Qed.
 Print Assumptions C07_ber_backward_any_depth_inhabited.
+
+(** SET as a container (Ber/BerExtendsSet.v, BerExtendsSetBack.v): [bextends_s] = [bextends] with SET nodes admitted
+    when the SET node itself receives no new addition (its components may be extended types at any depth; components
+    in any order on the wire, so the sorted DER octets are covered).  [bextends_s_of]: it subsumes [bextends]. *)
+From Asn1V Require Ber.BerExtendsSet Ber.BerExtendsSetBack Ber.BerExtendsSetEx.
+
+Theorem C07_ber_forward_tree_s_partial : ltac:(let T := type of Asn1V.Ber.BerExtendsSet.ber_forward_tree_s_partial in exact T).
+Proof. exact Asn1V.Ber.BerExtendsSet.ber_forward_tree_s_partial. Qed.
+Print Assumptions C07_ber_forward_tree_s_partial.
+
+Theorem C07_ber_forward_s_partial : ltac:(let T := type of Asn1V.Ber.BerExtendsSet.ber_forward_s_partial in exact T).
+Proof. exact Asn1V.Ber.BerExtendsSet.ber_forward_s_partial. Qed.
+Print Assumptions C07_ber_forward_s_partial.
+
+Theorem C07_ber_backward_tree_s_partial : ltac:(let T := type of Asn1V.Ber.BerExtendsSetBack.ber_backward_tree_s_partial in exact T).
+Proof. exact Asn1V.Ber.BerExtendsSetBack.ber_backward_tree_s_partial. Qed.
+Print Assumptions C07_ber_backward_tree_s_partial.
+
+Theorem C07_ber_backward_s_partial : ltac:(let T := type of Asn1V.Ber.BerExtendsSetBack.ber_backward_s_partial in exact T).
+Proof. exact Asn1V.Ber.BerExtendsSetBack.ber_backward_s_partial. Qed.
+Print Assumptions C07_ber_backward_s_partial.
+
+Example C07_ber_extends_set_inhabited : ltac:(let T := type of Asn1V.Ber.BerExtendsSetEx.ex_forward_set_container in exact T).
+Proof. exact Asn1V.Ber.BerExtendsSetEx.ex_forward_set_container. Qed.
+Print Assumptions C07_ber_extends_set_inhabited.
